@@ -156,13 +156,35 @@ def matrix(ctx: Ctx):
     ctx.check(ok, "D2", "DU.matrix", "linear_sum_assignment(table) is called on the cost table, minimising (no `maximize`)", fn, solver[0] if solver else None,
               why_bad=f"{[flow.dump(c) for c in solver]}", construct="find_assignment:solver-call")
     repl = [s for s in walk_stmts(fn.node) if isinstance(s, ast.Assign) and isinstance(s.targets[0], ast.Subscript) and flow.dump(s.targets[0].value) == "table" and not isinstance(s.targets[0].slice, ast.Name)
-            and "table ==" in flow.dump(s.targets[0].slice)]
-    ok = len(repl) == 1 and flow.dump(repl[0].targets[0]) == "table[table == float('inf')]" and flow.dump(repl[0].value) == "upper_bound"
+            and ("table ==" in flow.dump(s.targets[0].slice) or "(table)" in flow.dump(s.targets[0].slice))]
+    INF_MASKS = ("table == float('inf')", "float('inf') == table", "np.isposinf(table)", "numpy.isposinf(table)", "table == np.inf", "table == math.inf")
+    ok = len(repl) == 1 and flow.dump(repl[0].targets[0].slice) in INF_MASKS and flow.dump(repl[0].value) == "upper_bound"
     ctx.check(ok, "D2", "DU.matrix", "only infinite entries are replaced, by the upper bound", fn, repl[0] if repl else None,
               why_bad=f"{[flow.dump(r)[:80] for r in repl]}", construct="find_assignment:inf-replacement")
     # upper bound = max finite cost + 1
     ub_ok = any(isinstance(s, ast.AugAssign) and flow.dump(s.target) == "upper_bound" and isinstance(s.op, ast.Add) and flow.dump(s.value) == "1" for s in walk_stmts(fn.node))
-    ub_upd = any(isinstance(s, ast.Assign) and flow.dump(s.targets[0]) == "upper_bound" and flow.dump(s.value) == "cost if cost > upper_bound and cost != float('inf') else upper_bound" for s in walk_stmts(fn.node))
+    # the update inside the fill loop, as a function of (this cost, bound so far): the larger of the two for a finite cost, unchanged for an infinite one
+    ub_upd = False
+    inner_loops = [l for l in ast.walk(fn.node) if isinstance(l, ast.For) and any(isinstance(x, ast.Name) and x.id == "upper_bound" and isinstance(x.ctx, ast.Store) for x in ast.walk(l))]
+    if inner_loops:
+        body = min(inner_loops, key=lambda l: sum(1 for _ in ast.walk(l))).body
+        try:
+            bps = flow.paths_of_block(body)
+            import math
+            good = True
+            for c_ in (0, 1, 2, math.inf):
+                for ub in (-math.inf, 0, 1, 2):
+                    ev = cmp.Evaluator({"cost": c_, "upper_bound": ub}, {})
+                    p_ = cmp.taken_path(bps, ev)
+                    if p_ is None:
+                        good = False
+                        continue
+                    got = ev.num(p_.env["upper_bound"]) if "upper_bound" in p_.env else ub
+                    want = ub if c_ == math.inf else max(ub, c_)
+                    good = good and got == want
+            ub_upd = good
+        except (cmp.Unknown, AnalysisError, KeyError):
+            ub_upd = False
     ctx.check(ub_ok and ub_upd, "D2", "DU.matrix", "upper bound = largest finite cost + 1 (worse than every real pairing)", fn, why_bad="upper bound computation changed", construct="find_assignment:upper-bound")
     inner = ctx.repo.func(AO, "find_assignment._add_to_solution")
     sol, k = inner.params[:2]
